@@ -162,7 +162,7 @@ def main():
         "input_distribution": dict(ctx.dist.most_common(60)),
         "families": dict(ctx.families),
         "known_findings_hit": [k["id"] for k, _ in ctx.known_hits],
-        "notes": ctx.notes,
+        "notes": ctx.notes + ["stalled run killed and repeated: " + t for t in __import__("rbpv.chain", fromlist=["TIMEOUTS"]).TIMEOUTS],
         "build_profile": "dev (debug assertions and overflow checks on), RUSTFLAGS=" + B.RUSTFLAGS,
     }
     try:
